@@ -1,7 +1,7 @@
 //! C01 bounded: station consistency on every polyline with 2..=4 vertices on the integer grid {0,1,2}^2 (2D) and a
 //! fixed family of 3D polylines, open / naturally closed / force-closed, for l at every stored vertex length, every
 //! edge midpoint and quarter point, 0, L, and just outside [0, L].
-//! LONG curves (31, 32, 33, 64, 100, 128 edges; 2D and 3D): uniform edge lengths (unit staircase, straight run, 3-4-5
+//! LONG curves (31, 32, 33, 64, 100, 128 edges, a few with 257 and 1000; 2D and 3D): uniform edge lengths (unit staircase, straight run, 3-4-5
 //! zig-zag, closed / force-closed square loops), the same scaled by 0.1 and 2^-20 (inexact cumulative lengths), and
 //! non-uniform ones (edge lengths 1,2,1,2,.. / one long last edge / one long first edge), probed exactly at EVERY stored
 //! vertex length: the station at an interior vertex (2D) must carry the normalised sum of the adjacent edge directions
@@ -28,11 +28,19 @@ fn doubles_back(v: &[Point2], closed: bool, l: f64, ls: &[f64]) -> bool {
     false
 }
 
+/// vertex list for a failure message: in full up to 40 points; longer lists (the generated LONG families, whose edge
+/// vectors repeat cyclically) as their first 10 points and the total count
+fn show(pts: &[Vec<f64>]) -> String {
+    let one = |q: &Vec<f64>| format!("({})", q.iter().map(|x| format!("{:?}", x)).collect::<Vec<_>>().join(", "));
+    let list = |l: &[Vec<f64>]| l.iter().map(one).collect::<Vec<_>>().join(", ");
+    if pts.len() <= 40 { format!("[{}]", list(pts)) } else { format!("[{}, .. {} points in all (edge vectors repeat cyclically, see long_curves), last point {}]", list(&pts[..10]), pts.len(), one(&pts[pts.len() - 1])) }
+}
+
 fn check_curve2(r: &mut Report, pts: &[Point2], force_closed: bool) { check_curve2_tol(r, pts, force_closed, 1e-6) }
 fn check_curve2_tol(r: &mut Report, pts: &[Point2], force_closed: bool, tol: f64) {
     let c = match Curve2::from_points(pts, tol, force_closed) { Ok(c) => c, Err(_) => return };
     r.case();
-    let desc = || format!("Curve2::from_points({:?}, tol={:?}, force_closed={})", pts.iter().map(|p| (p.x, p.y)).collect::<Vec<_>>(), tol, force_closed);
+    let desc = || format!("Curve2::from_points({}, tol={:?}, force_closed={})", show(&pts.iter().map(|p| vec![p.x, p.y]).collect::<Vec<_>>()), tol, force_closed);
     let v = c.points().to_vec();
     let n = v.len();
     let ls = c.lengths().clone();
@@ -136,7 +144,7 @@ fn check_curve3(r: &mut Report, pts: &[Point3]) { check_curve3_tol(r, pts, 1e-6)
 fn check_curve3_tol(r: &mut Report, pts: &[Point3], tol: f64) {
     let c = match Curve3::from_points(pts, tol) { Ok(c) => c, Err(_) => return };
     r.case();
-    let desc = || format!("Curve3::from_points({:?}, tol={:?})", pts.iter().map(|p| (p.x, p.y, p.z)).collect::<Vec<_>>(), tol);
+    let desc = || format!("Curve3::from_points({}, tol={:?})", show(&pts.iter().map(|p| vec![p.x, p.y, p.z]).collect::<Vec<_>>()), tol);
     let v = c.points().to_vec();
     let n = v.len();
     let ls = c.lengths().to_vec();
@@ -192,6 +200,12 @@ fn check_curve3_tol(r: &mut Report, pts: &[Point3], tol: f64) {
     }
     let mut k = 0;
     for st in c.iter() {
+        if let Some(s) = c.at_length(ls[k]) {
+            r.check(s.index() == st.index() && s.fraction() == st.fraction() && s.point() == st.point()
+                && close(s.direction().x, st.direction().x) && close(s.direction().y, st.direction().y) && close(s.direction().z, st.direction().z),
+                "at_length(stored length k) == iterated station k (index, fraction, point, direction)", || format!("{} vertex {}", desc(), k));
+        }
+        r.check(close(st.length_along(), ls[k]), "iterated station k has the stored length", desc);
         r.check(st.point() == v[k], "iterated station k is vertex k", desc);
         let dn = (st.direction().x.powi(2) + st.direction().y.powi(2) + st.direction().z.powi(2)).sqrt();
         r.check(close(dn, 1.0), "unit direction (3D vertex station)", desc);
@@ -201,7 +215,7 @@ fn check_curve3_tol(r: &mut Report, pts: &[Point3], tol: f64) {
 }
 
 pub fn run() -> Report {
-    let mut r = Report::new("2D: all vertex sequences of length 2..=4 over the 3x3 integer grid (x force_closed in {false,true}), plus sequences with near-duplicate points (gap 1e-7 < tol); 3D: 2..=3 vertices over {0,1}^3 plus near-duplicates; probe lengths: 0, L, every vertex length, quarter/half points of every edge, and 6 values outside [0, L]; LONG curves with 31, 32, 33, 64, 100, 128 edges (2D: 8 families uniform / non-uniform, open and force-closed; 3D: 3 families) x scales 1, 0.1, 2^-20, closed square loops with 32..128 edges (seam at a corner / inside a side), probed at EVERY stored vertex length; curves of ~1300 edges shorter than 1e-6 (total length ~1e-3, tol 1e-9) and unit-size curves with a dense stretch of such edges");
+    let mut r = Report::new("2D: all vertex sequences of length 2..=4 over the 3x3 integer grid (x force_closed in {false,true}), plus sequences with near-duplicate points (gap 1e-7 < tol); 3D: 2..=3 vertices over {0,1}^3 plus near-duplicates; probe lengths: 0, L, every vertex length, quarter/half points of every edge, and 6 values outside [0, L]; LONG curves with 31, 32, 33, 64, 100, 128 edges (2D: 8 families uniform / non-uniform, open and force-closed; 3D: 3 families) x scales 1, 0.1, 2^-20, closed square loops with 32..128 edges (seam at a corner / inside a side), 4 families with 257 and 1000 edges, probed at EVERY stored vertex length; curves of ~1300 edges shorter than 1e-6 (total length ~1e-3, tol 1e-9) and unit-size curves with a dense stretch of such edges");
     let grid: Vec<Point2> = (0..9).map(|k| Point2::new((k % 3) as f64, (k / 3) as f64)).collect();
     for len in 2..=4usize {
         let mut idx = vec![0usize; len];
@@ -283,6 +297,13 @@ fn long_curves(r: &mut Report) {
             check_curve3_tol(r, &chain3(n, &[(1.0, 2.0, 2.0), (2.0, -1.0, 2.0)], f), tol);
             check_curve3_tol(r, &chain3(n, &[(1.0, 0.0, 0.0), (0.0, 2.0, 0.0), (0.0, 0.0, 1.0)], f), tol);
         }
+    }
+    // very long: 257 and 1000 edges, uniform staircase / non-uniform, 2D and 3D
+    for &n in [257usize, 1000].iter() {
+        check_curve2_tol(r, &chain2(n, &[(1.0, 0.0), (0.0, 1.0)], 1.0), false, 1e-6);
+        check_curve2_tol(r, &chain2(n, &[(1.0, 0.0), (0.0, 1.0)], 0.1), true, 1e-7);
+        check_curve2_tol(r, &chain2(n, &[(3.0, 4.0), (5.0, 0.0), (8.0, -6.0)], 1.0), false, 1e-6);
+        check_curve3_tol(r, &chain3(n, &[(1.0, 0.0, 0.0), (0.0, 1.0, 0.0), (0.0, 0.0, 1.0)], 1.0), 1e-6);
     }
     // closed square loops with 8, 16, 25, 32 unit edges per side, naturally closed and force-closed, the seam at a corner
     // and inside a side
